@@ -53,7 +53,7 @@ def _cases(draw, tier):
     for it in G.flatten(b.items):
         if it['t'] == 'include':
             dirs[it['file']] = draw(st.sampled_from(['src', 'inc_a', 'inc_b', 'inc_a']))
-    twist = draw(st.sampled_from([None, None, None, 'ambiguous', 'missing']))
+    twist = draw(st.sampled_from([None, None, 'symlink', 'symlink', 'ambiguous', 'missing']))
     return {'kind': 'prog', 'isa': cfg, 'items': b.items, 'dirs': dirs, 'twist': twist, 'fmt': fmt,
             'iorder': draw(st.permutations(['inc_a', 'inc_b', 'inc_c']))}
 
@@ -106,6 +106,10 @@ def execute(case, ctx):
         runner._write_files(root, files)
         for d in ('src', 'inc_a', 'inc_b', 'inc_c', 'elsewhere'):
             os.makedirs(os.path.join(root, d), exist_ok=True)
+        if idirs and case.get('twist') == 'symlink':
+            # inc_l is another name of inc_a
+            os.symlink(os.path.join(root, 'inc_a'), os.path.join(root, 'inc_l'))
+            idirs = idirs + ['inc_l']
         variants = [('seed' + s, {'PYTHONHASHSEED': s}, idirs, root) for s in seeds]
         variants.append(('rev-I', {'PYTHONHASHSEED': '1'}, list(reversed(idirs)) + idirs[:1], root))
         variants.append(('cwd', {'PYTHONHASHSEED': '2'}, idirs, os.path.join(root, 'elsewhere')))
